@@ -500,7 +500,8 @@ LedgerRecOK(e) ==
   /\ \A f \in Fams, s \in Gauges : e.cur[f][s] = e.inflight[f][s]
   /\ \A f \in Fams, x \in Outcomes : e.rep[f][x] + e.cur[f][x] <= e.ev[f][x]
   /\ (~AsFound) => \A f \in Fams, x \in Outcomes : e.rep[f][x] + e.cur[f][x] = e.ev[f][x]
-  /\ \A f \in Fams, x \in Outcomes : e.repa[f][x] + e.cura[f][x] = e.eva[f][x]
+  \* the per-ASN rows are exact (arrivals and every outcome), so per family: tabulated arrivals = tabulated outcomes + in flight
+  /\ \A f \in Fams, x \in Outcomes \cup {"new"} : e.repa[f][x] + e.cura[f][x] = e.eva[f][x]
   /\ \A f \in Fams : e.ev[f]["new"] - SumF(e.ev[f], Outcomes) = SumF(e.inflight[f], Gauges)
 =============================================================================
 \* Divergences of the code from "intended" that the as_found variant models (each is demonstrated on the real
